@@ -1,9 +1,8 @@
 """C16 -- work-unit-local storage (structural part)."""
-import re
-
-from abtverif import cfg, locks, seq, terms
-from abtverif.seq import idx, is_call, show, has_if, held_at
+from abtverif import canon, cfg, seq
+from abtverif.seq import idx, is_call, show, held_at
 from . import common, C03
+from .C15 import ntype, cond_root, term, tshow, mk_bin, subterms, addr_var, param_of_type
 
 EXPLANATION = (
     "Decides for the per-unit key table: R1 a new element's fields are written before the release-store that links "
@@ -19,6 +18,7 @@ EXPLANATION = (
 DECLINED = ["map semantics (last value wins, independence of keys/units) over arbitrary histories"]
 ASSUMPTIONS = ["X1 memory orders", "keys are never freed while values exist (documented API restriction)"]
 RULES_DOC = dict(common.SHARED_DOC)
+RULES_DOC["X4"] = common.X4_DOC
 RULES_DOC.update({
     "R1": "element initialised before its release-store link; acquire-load traversal; table pointer published by release store / reset on failure",
     "R2": "append only after a second scan of the chain under the table lock (thread-safe variant); lock released on every exit",
@@ -29,25 +29,54 @@ VARIANTS = ["no_ext_thread"]
 KH = "src/include/abti_key.h"
 
 
+ELEM_T, LINK_T, HDR_T = "ABTI_ktelem*", "ABTD_atomic_ptr*", "ABTI_ktable_mem_header*"
+KEYCMP = "ABTI_key::id == ABTI_ktelem::key_id"      # canonical label of `elem->key_id == <id of the key>` (either way round)
+
+
+def _tested_var_type(F, node):
+    """Type of the variable whose NULL-ness a condition atom tests (None if it tests something else)."""
+    r = F.nodes[F.strip(cond_root(F, node))]
+    if r.get("k") == "ref" and r.get("dk") in ("var", "param"):
+        return ntype(r.get("t"))
+    return None
+
+
+def _is_var_of_type(F, i, typ):
+    n = F.nodes[F.strip(i)]
+    return n.get("k") == "ref" and n.get("dk") in ("var", "param") and ntype(n.get("t")) == typ
+
+
 def rule_R1_R2(P, rep):
     F = P.fn("ABTI_ktable_set_impl", KH)
     L = "ABTI_ktable::lock"
+    SAFE = param_of_type(F, "ABT_bool")
+    rep.need(SAFE, "ABTI_ktable_set_impl: no ABT_bool (thread-safe) parameter in %s" % F.params)
+
+    def conds(label, F, node):
+        # the rule's own labels: independent of the names of the cursor variables and of the polarity of the tests
+        if label == SAFE:
+            return "safe"
+        if _tested_var_type(F, node) == ELEM_T:
+            return "elem"                # true = the element pointer is not NULL
+        if "ABTI_ktelem::key_id" in label:
+            return "keycmp" if label == KEYCMP else "keycmp?" + label
+        if label.startswith("ABTI_ktable_alloc_elem("):
+            return "alloc-failed"        # true = error code non-zero
+        return None
     sel = seq.Sel(calls={"ABTI_ktable_alloc_elem", "ABTD_atomic_acquire_load_ptr", "ABTD_atomic_release_store_ptr",
                          "ABTD_atomic_relaxed_store_ptr"},
-                  fields={"f_destructor", "key_id", "value", "p_next"},
-                  conds=lambda t: t in ("is_safe", "p_elem") or "key_id" in t or "abt_errno" in t,
-                  assigns={"p_elem", "pp_elem"}, decls={"p_elem", "pp_elem"})
+                  fields={"f_destructor", "key_id", "value", "p_next"}, conds=conds, canon=True)
     for safe in (1, 0):
-        ps = seq.sequences(F, sel, max_repeat=2, max_len=80, entry_consts={"is_safe": safe})
+        ps = seq.sequences(F, sel, max_repeat=2, max_len=80, entry_consts={SAFE: safe})
         n_app = 0
         for toks, kind, rv, rtxt in ps:
             if kind != "ret":
                 continue
             why = []
-            pub = []
-            pub = [i for i, t in enumerate(toks) if (t[0] == "call" and t[1] == "ABTD_atomic_release_store_ptr" and
-                                                      t[2] == ("var:pp_elem", "var:p_elem")) or
-                   (t[0] == "call" and t[1] == "ABTD_atomic_relaxed_store_ptr" and t[2][0] == "var:pp_elem")]
+            # the linking store: an atomic pointer store through a link *variable* (the remembered tail link); the
+            # stores into fields of the new element are 'ast' tokens
+            pub = [i for i, t in enumerate(toks) if t[0] == "call" and t[1] in ("ABTD_atomic_release_store_ptr", "ABTD_atomic_relaxed_store_ptr")
+                   and _is_var_of_type(F, F.nodes[t[-1]]["a"][0], LINK_T)]
             if pub and toks[pub[0]][1] != "ABTD_atomic_release_store_ptr":
                 why.append("new element linked with a relaxed store (readers may see uninitialised fields)")
             al = idx(toks, is_call("ABTI_ktable_alloc_elem"))
@@ -55,6 +84,10 @@ def rule_R1_R2(P, rep):
                 why.append("returns holding the table lock")
             if pub:
                 n_app += 1
+                new = addr_var(F, F.nodes[toks[al[-1]][-1]]["a"][-1]) if al and al[-1] < pub[0] else None
+                linked = F.nodes[toks[pub[0]][-1]]["a"][1]
+                if new is None or not (term(F, linked) == ("var", new) or F.nodes[F.strip(linked)].get("n") == new):
+                    why.append("the element linked (%s) is not the element just obtained from ABTI_ktable_alloc_elem" % canon.expr(F, linked))
                 inits = {t[1].split("::")[-1] for t in toks[:pub[0]] if t[0] == "st"} | \
                         {t[2].split("::")[-1] for t in toks[:pub[0]] if t[0] == "ast"}
                 missing = {"f_destructor", "key_id", "value", "p_next"} - inits
@@ -65,9 +98,11 @@ def rule_R1_R2(P, rep):
                         why.append("element appended without the table lock")
                     acq = [i for i, t in enumerate(toks) if t[0] == "acq" and t[1] == L]
                     if acq:
-                        rescan = [i for i, t in enumerate(toks) if t[0] == "decl" and t[1] == "p_elem" and
-                                  "acquire_load_ptr(pp_elem)" in (t[2] or "") and acq[-1] < i < pub[0]]
-                        tested = [i for i, t in enumerate(toks) if t[0] == "if" and t[1] == "p_elem" and acq[-1] < i < pub[0]]
+                        # the chain is read again through a remembered link (not from the table head) under the lock ...
+                        rescan = [i for i, t in enumerate(toks) if t[0] == "call" and t[1] == "ABTD_atomic_acquire_load_ptr" and
+                                  acq[-1] < i < pub[0] and _is_var_of_type(F, F.nodes[t[-1]]["a"][0], LINK_T)]
+                        # ... and the last element pointer tested before the append was NULL (the end of the chain)
+                        tested = [i for i, t in enumerate(toks) if t[0] == "if" and t[1] == "elem" and acq[-1] < i < pub[0]]
                         if not rescan or not tested or toks[tested[-1]][2] is not False:
                             why.append("the chain is not re-read under the lock before appending (two concurrent first sets "
                                        "in one slot would unlink each other or duplicate the key)")
@@ -80,8 +115,12 @@ def rule_R1_R2(P, rep):
             else:
                 if [t for t in toks if t[0] == "st"]:
                     why.append("error path writes an element")
-            rep.ob("R2" if safe else "R1", "ktable_set_impl(is_safe=%d) -> %s [%s]" % (safe, rtxt, show(toks)[-220:]), not why,
-                   "; ".join(why), loc="%s:%d" % (F.file, F.line), site="set_impl/%d/%s/%d" % (safe, rtxt, len(toks)))
+            bad_cmp = [t[1] for t in toks if t[0] == "if" and t[1].startswith("keycmp?")]
+            if bad_cmp:
+                why.append("element key compared with something other than the key's id: %s" % bad_cmp[0][7:])
+            rt = rtxt if rtxt is None or len(rtxt) <= 24 else rtxt.split("(")[0] + "(..)"
+            rep.ob("R2" if safe else "R1", "ktable_set_impl(is_safe=%d) -> %s [%s]" % (safe, rt, show(toks)[-220:]), not why,
+                   "; ".join(why), loc="%s:%d" % (F.file, F.line), site="set_impl/%d/%s/%d" % (safe, rt, len(toks)))
         rep.need(n_app >= 1, "ktable_set_impl(is_safe=%d): no appending path" % safe)
     # readers
     for fn in ("ABTI_ktable_get", "ABTI_ktable_set_impl"):
@@ -90,10 +129,17 @@ def rule_R1_R2(P, rep):
         rep.ob("R1", "%s traverses the table with acquire loads" % fn, bool(loads) and all("acquire" in x for x in loads), str(loads),
                loc=G.file, site="%s/acquire" % fn)
     S = P.fn("ABTI_ktable_set", KH)
-    sel = seq.Sel(calls={"ABTI_ktable_create", "ABTI_ktable_set_impl", "ABTD_atomic_bool_cas_weak_ptr"}, fields=set(),
-                  conds=lambda t: "abt_errno" in t or "cas" in t)
-    pubs = [(S.nodes[i]["fn"], S.render(S.nodes[i]["a"][1])) for b, i in S.calls() if "store_ptr" in (S.nodes[i].get("fn") or "")]
-    ok = ("ABTD_atomic_release_store_ptr", "p_ktable") in pubs and ("ABTD_atomic_release_store_ptr", "(void *)0") in pubs
+    slot = param_of_type(S, LINK_T)
+    rep.need(slot, "ABTI_ktable_set: no `ABTD_atomic_ptr *` table-slot parameter in %s" % S.params)
+    # the local that receives the new table from ABTI_ktable_create (its out-parameter)
+    created = set(addr_var(S, S.nodes[i]["a"][-1]) for b, i in S.calls("ABTI_ktable_create")) - {None}
+    pubs = []
+    for b, i in S.calls():
+        nd = S.nodes[i]
+        if "store_ptr" in (nd.get("fn") or "") and term(S, nd["a"][0]) == ("var", slot):
+            v = term(S, nd["a"][1])
+            pubs.append((nd["fn"], "NULL" if v == ("int", 0) else "new-table" if v[0] == "var" and v[1] in created else tshow(v)))
+    ok = ("ABTD_atomic_release_store_ptr", "new-table") in pubs and ("ABTD_atomic_release_store_ptr", "NULL") in pubs
     rep.ob("R1", "ABTI_ktable_set publishes the new table with a release store and resets the slot to NULL on failure", ok, str(pubs),
            loc=S.file, site="ktable_set/publish")
     cr = S.calls("ABTI_ktable_create")
@@ -103,43 +149,108 @@ def rule_R1_R2(P, rep):
     rep.min_instances("R2", 3)
 
 
+def _key_tests(F):
+    """[(canonical label, atom node)] of the branch conditions that look at an element's key id."""
+    out = []
+    for b in F.blocks.values():
+        if b.tc is None:
+            continue
+        aj, _t = cfg.cond_atom(F, b.tc, True)
+        lab, _flip = canon.cond(F, aj)
+        if "ABTI_ktelem::key_id" in lab:
+            out.append((lab, aj))
+    return out
+
+
+def _affine(t, n):
+    """(c1, c2) if term t is c1 + c2 * n for integer constants c1, c2; else None."""
+    if not (isinstance(t, tuple) and t[0] == "bin" and t[1] == "+"):
+        return None
+    for c, m in ((t[2], t[3]), (t[3], t[2])):
+        if c[0] == "int" and m[0] == "bin" and m[1] == "*":
+            for k, x in ((m[2], m[3]), (m[3], m[2])):
+                if k[0] == "int" and x == n:
+                    return c[1], k[1]
+    return None
+
+
 def rule_R3(P, rep):
     Sf = P.fn("ABTI_ktable_set_impl", KH)
     Gf = P.fn("ABTI_ktable_get", KH)
+
     def slot(F):
-        return [[F.render(a) for a in F.nodes[i]["a"]] for b, i in F.calls("ABTI_ktable_get_idx")]
+        # arguments by canonical value: the key parameter and the size field of the table (whatever the table pointer is called)
+        key = param_of_type(F, "ABTI_key*")
+        return [["key" if canon.expr(F, a) == key else canon.expr(F, a) for a in F.nodes[i]["a"]] for b, i in F.calls("ABTI_ktable_get_idx")]
     s, g = slot(Sf), slot(Gf)
-    rep.ob("R3", "set and get compute the slot as ABTI_ktable_get_idx(p_key, p_ktable->size)", s == g == [["p_key", "p_ktable->size"]],
+    rep.ob("R3", "set and get compute the slot as ABTI_ktable_get_idx(p_key, p_ktable->size)", s == g == [["key", "ABTI_ktable::size"]],
            "set %s get %s" % (s, g), loc=KH, site="slot-function")
     I = P.fn("ABTI_ktable_get_idx", KH)
-    r = [terms.expand(I, I.nodes[i]["e"]) for b, i in I.all_events() if I.nodes[i].get("k") == "ret"]
-    rep.ob("R3", "slot = key id masked by size-1", r == ["(p_key->id & (size - 1))"], str(r), loc=I.file, site="slot-mask")
+    r = [term(I, I.nodes[i]["e"]) for b, i in I.all_events() if I.nodes[i].get("k") == "ret"]
+    want = mk_bin("&", ("fld", ("var", I.params[0]["n"]), "ABTI_key::id"), mk_bin("-", ("var", I.params[1]["n"]), ("int", 1)))
+    rep.ob("R3", "slot = key id masked by size-1", r == [want], str([tshow(x) for x in r]), loc=I.file, site="slot-mask")
     for F in (Sf, Gf):
-        cmps = [F.render(b.tc) for b in F.blocks.values() if b.tc is not None and "key_id" in F.render(b.tc)]
-        rep.ob("R3", "%s compares the element's key id with the key's id" % F.name, bool(cmps) and all(c == "p_elem->key_id == key_id" for c in cmps),
+        key = param_of_type(F, "ABTI_key*")
+        tests = _key_tests(F)
+        cmps = [lab for lab, aj in tests]
+        rep.ob("R3", "%s compares the element's key id with the key's id" % F.name, bool(cmps) and all(c == KEYCMP for c in cmps),
                str(cmps), loc=F.file, site="%s/keycmp" % F.name)
-        kid = [F.render(i) for b, i in F.all_events() if F.nodes[i].get("k") == "decl" and any(v["n"] == "key_id" for v in F.nodes[i]["vars"])]
-        rep.ob("R3", "%s takes key_id from the key" % F.name, any("p_key->id" in k for k in kid), str(kid), loc=F.file,
+        # the id compared is the id of the key passed in: the operand that is not the element's field, rooted at the parameter
+        kid = []
+        for lab, aj in tests:
+            nd = F.nodes[F.strip(aj)]
+            if nd.get("k") == "bin":
+                kid += [canon.rooted(F, x) for x in (nd["lh"], nd["rh"]) if F.field_of(x) != ("ABTI_ktelem", "key_id")]
+        rep.ob("R3", "%s takes key_id from the key" % F.name, bool(kid) and all(k == "%s->id" % key for k in kid), str(kid), loc=F.file,
                site="%s/keyid" % F.name)
     # allocation covers exactly `size` slots
     C = P.fn("ABTI_ktable_create", KH)
-    defs = terms.single_defs(C)
-    size_store = [terms.expand(C, rh, defs=defs) for b, i, lh, rh in C.stores() if C.fieldpath(lh) == "ABTI_ktable::size"]
-    ks = terms.expand(C, defs["ktable_size"], defs=defs) if "ktable_size" in defs else ""
-    n = re.sub(r"[()\s]", "", ks)
-    cnt = re.sub(r"[()\s]", "", size_store[0]) if size_store else "?"
-    ok = bool(size_store) and ("sizeofABTD_atomic_ptr*" + cnt) in n and "offsetof" in ks or (bool(size_store) and re.search(r"\*%s[,)]?" % re.escape(cnt), n) is not None and (cnt + "-1") not in n and (cnt + "+") not in n)
-    rep.ob("R3", "the table is allocated for exactly the number of slots it records (p_elems[size])", bool(ok),
-           "allocation size %s ; recorded size %s" % (ks, size_store), loc=C.file, site="ktable_create/slots")
-    ms = [[C.render(a) for a in C.nodes[i]["a"]] for b, i in C.calls() if (C.nodes[i].get("fn") or "").endswith("memset") or "memset" in (C.nodes[i].get("fn") or "")]
-    ok = bool(ms) and all("key_table_size" in m[2] and "- 1" not in m[2] for m in ms)
-    rep.ob("R3", "all recorded slots are cleared at creation", ok, str(ms), loc=C.file, site="ktable_create/memset")
+    recorded = sorted(set(term(C, rh) for b, i, lh, rh in C.stores() if rh is not None and C.fieldpath(lh) == "ABTI_ktable::size"))
+    sizes = [term(C, C.nodes[i]["a"][0]) for b, i in C.calls("ABTU_malloc")]
+    rec = P.records.get("ABTI_ktable")
+    off = next((f["off"] for f in rec["fields"] if f["n"] == "p_elems"), None) if rec else None
+    esz = (P.records.get("ABTD_atomic_ptr") or {}).get("size")
+    ok = len(recorded) == 1 and bool(sizes)
+    detail = "allocation size %s ; recorded size %s" % ([tshow(x) for x in sizes], [tshow(x) for x in recorded])
+    slotsz = None
+    if ok:
+        for sz in sizes:
+            # the heap block is  roundup(offsetof(p_elems) + sizeof(slot) * <recorded size>, alignment) [+ header]
+            aff = [_affine(x[2], recorded[0]) for x in subterms(sz) if x[0] == "call" and x[1] == "ABTU_roundup_size" and len(x) == 4]
+            aff = [a for a in aff if a is not None]
+            if len(aff) != 1 or (off is not None and aff[0][0] != off) or (esz is not None and aff[0][1] != esz) or aff[0][1] <= 0:
+                ok = False
+            else:
+                slotsz = aff[0][1]
+    rep.ob("R3", "the table is allocated for exactly the number of slots it records (p_elems[size])", bool(ok), detail, loc=C.file,
+           site="ktable_create/slots")
+    ms = [[term(C, a) for a in C.nodes[i]["a"]] for b, i in C.calls() if "memset" in (C.nodes[i].get("fn") or "")]
+    ok = bool(ms) and len(recorded) == 1 and all(m[1] == ("int", 0) and m[2][0] == "bin" and m[2][1] == "*" and recorded[0] in m[2][2:] and
+                                                 [x for x in m[2][2:] if x != recorded[0]] == [("int", slotsz if slotsz else esz)] for m in ms)
+    rep.ob("R3", "all recorded slots are cleared at creation", ok, str([[tshow(x) for x in m] for m in ms]), loc=C.file,
+           site="ktable_create/memset")
 
 
 def rule_R4(P, rep):
     F = P.fn("ABTI_ktable_free", "src/key.c")
-    sel = seq.Sel(calls={"ABTI_mem_free_desc", "ABTU_free"}, indirect=True,
-                  conds=lambda t: "f_destructor" in t or "value" in t or "is_from_mempool" in t or t in ("p_elem", "p_header"))
+    DTOR, VALUE, PROV = "ABTI_ktelem::f_destructor", "ABTI_ktelem::value", "ABTI_ktable_mem_header::is_from_mempool"
+
+    def conds(label, F, node):
+        if label == DTOR:
+            return "dtor"                # true = a destructor is registered
+        if label == VALUE:
+            return "value"               # true = the value is not NULL
+        if label == PROV:
+            return "from-mempool"
+        ty = _tested_var_type(F, node)
+        if ty == ELEM_T:
+            return "elem"
+        if ty == HDR_T:
+            return "block"
+        if "ABTI_ktelem::f_destructor" in label or "ABTI_ktelem::value" in label or "is_from_mempool" in label:
+            return "?" + label           # an unrecognised test of these fields: never taken for a guard
+        return None
+    sel = seq.Sel(calls={"ABTI_mem_free_desc", "ABTU_free"}, indirect=True, conds=conds, canon=True)
     n = 0
     for toks, kind, rv, rtxt in seq.sequences(F, sel, max_repeat=2, max_len=80):
         if kind != "ret":
@@ -149,13 +260,16 @@ def rule_R4(P, rep):
             if t[0] == "icall":
                 n += 1
                 call = F.nodes[t[-1]]
-                if F.render(call["fe"]) != "p_elem->f_destructor" or [F.render(a) for a in call["a"]] != ["p_elem->value"]:
+                fe, args = canon.expr(F, call["fe"]), [canon.expr(F, a) for a in call["a"]]
+                # same element on both sides, when both are direct member accesses
+                roots = set(F.base_var(x) for x in [call["fe"]] + list(call["a"]) if F.field_of(x)) - {None}
+                if fe.lstrip("*") != DTOR or args != [VALUE] or len(roots) > 1:
                     why.append("destructor invoked as %s(%s)" % (F.render(call["fe"]), [F.render(a) for a in call["a"]]))
                 pre = [u for u in toks[:i] if u[0] == "if"][-2:]
-                if not (len(pre) == 2 and "f_destructor" in pre[0][1] and pre[0][2] and "value" in pre[1][1] and pre[1][2]):
+                if sorted((u[1], u[2]) for u in pre) != [("dtor", True), ("value", True)]:
                     why.append("destructor call not guarded by `f_destructor && value`")
             if t[0] == "call" and t[1] in ("ABTI_mem_free_desc", "ABTU_free"):
-                g = [u for u in toks[:i] if u[0] == "if" and "is_from_mempool" in u[1]]
+                g = [u for u in toks[:i] if u[0] == "if" and u[1] == "from-mempool"]
                 if not g or (t[1] == "ABTI_mem_free_desc") != g[-1][2]:
                     why.append("%s used for a block whose recorded provenance says otherwise" % t[1])
         # destructors before any block is returned
@@ -168,8 +282,8 @@ def rule_R4(P, rep):
                site="ktable_free/%s" % shape)
     rep.need(n >= 1, "ktable_free never calls a destructor")
     # each element visited once: the traversal advances with p_next of the same element
-    adv = [F.render(i) for b, i, lh, rh in F.stores() if F.render(lh) == "p_elem"]
-    rep.ob("R4", "element traversal advances through p_elem->p_next", any("p_elem->p_next" in a for a in adv), str(adv), loc=F.file,
+    adv = [canon.expr(F, rh) for b, i, lh, rh in F.stores() if rh is not None and _is_var_of_type(F, lh, ELEM_T)]
+    rep.ob("R4", "element traversal advances through p_elem->p_next", any("ABTI_ktelem::p_next" in a for a in adv), str(adv), loc=F.file,
            site="ktable_free/advance")
     sub = type(rep)(rep.prop, rep.tier, rep.variant)
     C03.rule_R5(P, sub)
@@ -179,6 +293,8 @@ def rule_R4(P, rep):
 
 
 def run(P, rep, tier):
+    if tier == "thorough":
+        common.rule_X4(P, rep)
     common.run_shared(P, rep, which=("X1", "X2"))
     rule_R1_R2(P, rep)
     rule_R3(P, rep)
